@@ -881,12 +881,42 @@ impl MachineState {
 
         let end_cell = heap_pstr_iter.heap[heap_pstr_iter.focus()];
 
-        if heap_pstr_iter.is_cyclic() || end_cell != empty_list_as_cell!() {
+        if heap_pstr_iter.is_cyclic() {
             let err = self.type_error(ValidType::List, a1);
             return Err(self.error_form(err, stub_gen()));
         }
 
-        Ok(chars)
+        if end_cell == empty_list_as_cell!() {
+            return Ok(chars);
+        }
+
+        // the characters can be followed by further elements that are
+        // not characters: the rest is walked as an ordinary list.
+        read_heap_cell!(end_cell,
+            (HeapCellValueTag::Lis, l) => {
+                self.try_from_inner_list(chars, l, stub_gen, a1)
+            }
+            (HeapCellValueTag::Str, s) => {
+                let (name, arity) = cell_as_atom_cell!(self.heap[s])
+                    .get_name_and_arity();
+
+                if name == atom!("[]") && arity == 0 {
+                    Ok(chars)
+                } else {
+                    let err = self.type_error(ValidType::List, a1);
+                    Err(self.error_form(err, stub_gen()))
+                }
+            }
+            _ => {
+                if end_cell.is_var() {
+                    let err = self.instantiation_error();
+                    Err(self.error_form(err, stub_gen()))
+                } else {
+                    let err = self.type_error(ValidType::List, a1);
+                    Err(self.error_form(err, stub_gen()))
+                }
+            }
+        )
     }
 
     // returns true on failure.
